@@ -124,7 +124,7 @@ def cycle_spec(kinds, two_modules=False, soft_names=False):
         elif kind == "keep":
             body = [{"k": "keep", "path": f"/cy/n{i}", "fn": nxt, "args": [], "form": "from"}]
         elif kind == "hof":
-            body = [{"k": "hof", "fn": nxt}]
+            body = [{"k": "hof", "fn": nxt, "form": "attr" if cross else "from"}]
         else:
             funcs.append({"name": f"C{i}", "module": mod(i), "cls": f"C{i}", "params": [], "body": [{"k": "call", "fn": nxt, "form": "plain"}], "init": []})
             body = [{"k": "method", "cls": f"C{i}", "form": "plain"}]
@@ -260,7 +260,7 @@ def plan(tier):
         for kinds in itertools.product(EDGES, repeat=k):
             if k == 1 and kinds[0] == "method":
                 pass
-            for two in ((False, True) if k >= 2 and all(x == "call" for x in kinds) else (False,)):
+            for two in ((False, True) if k >= 2 and all(x in ("call", "hof") for x in kinds) else (False,)):
                 spec = cycle_spec(list(kinds), two)
                 expect = {e: ("CIRCULAR_CALL", f"cycle {'-'.join(kinds)} entered at {e}") for e in spec["entries"]}
                 items.append((spec, expect, "memory"))
